@@ -1,12 +1,13 @@
 (* C09 — a connection that saw a failure is never reused; fresh ones are vetted.  Statements only.
-   Partial (see DESIGN 6, C09): the log-level statement "no byte is ever written to a dropped
-   connection" over whole histories is decided by the correspondence + oracle; proved here are the
-   steps it is made of. *)
-From Zvt Require Import Base Length Cp437 Encoding Codec Lookup Client ClientProps.
+   The log-level statements quantify over EVERY configuration, EVERY history of public calls and EVERY
+   scripted terminal (any number of connections, any chunks, delays, silences, closes, refusals); the
+   log is the one the correspondence run compares event by event, to the millisecond, with the real
+   client's (writes per connection, opens, drops). *)
+From Zvt Require Import Base Length Cp437 Encoding Codec Lookup Sequence SeqLookup Client ClientProps ClientLog.
 Open Scope N_scope.
 
 (* after an Err item the very next poll drops the connection before doing anything else ... *)
-Theorem C09_after_err_drops_connection_partial : forall f cfg r w, r_ph r = RAfterErr ->
+Theorem C09_after_err_drops_connection : forall f cfg r w, r_ph r = RAfterErr ->
   retry_next (S f) cfg r w = retry_next f cfg (rs_set r (r_left r) (r_first r) (r_last r) RIdle) (drop_cur w).
 Proof. exact after_err_drops_connection. Qed.
 
@@ -14,5 +15,59 @@ Proof. exact after_err_drops_connection. Qed.
 Theorem C09_drop_clears_current : forall w, w_cur (drop_cur w) = None.
 Proof. exact drop_cur_clears. Qed.
 
-Print Assumptions C09_after_err_drops_connection_partial.
+(* whole histories: nothing is ever written to a connection after it was dropped; every write goes to a
+   connection opened before; every connection that is opened is a new one (log_safe, newest event first) *)
+Theorem C09_history_never_reuses_a_dropped_connection : forall cfg ops scripts,
+  let '(_, _, _, w) := run_history cfg ops scripts in log_safe (w_log w).
+Proof. exact history_log_safe. Qed.
+
+(* whole histories: the first bytes written to any connection are the registration command carrying the
+   configured password and currency *)
+Theorem C09_history_registration_first : forall cfg ops scripts,
+  let '(_, _, _, w) := run_history cfg ops scripts in log_reg cfg (w_log w).
+Proof. exact history_registration_first. Qed.
+
+(* the identity check: connect hands out a connection only after registration succeeded on it and the
+   terminal's system information named the configured serial number (case-insensitively) *)
+Theorem C09_connection_is_vetted : forall cfg d w id w', connect cfg d w = COk id w' ->
+  exists w1 wr i1 v1 ph1 i v ph dev,
+    seq_next (seq_of "zvt::sequences::Registration" (registration_cmd cfg)) id PStart d w1 = NItem (IOk i1 v1) ph1 wr /\
+    seq_next (seq_of "zvt::feig::sequences::GetSystemInfo" sysinfo_cmd) id PStart d wr = NItem (IOk i v) ph w' /\
+    i = variant_ix "zvt::feig::sequences::GetSystemInfoResponse" "CVendFunctionsEnhancedSystemInformationCompletion" /\
+    first_pos v = Some (VStr dev) /\ list_eqb (map lower dev) (map lower (c_serial cfg)) = true.
+Proof. exact connect_vetted. Qed.
+
+(* a normally completed exchange keeps the connection, and the next call polls it without connecting *)
+Theorem C09_reuse_without_connect : forall f cfg r w id lft, r_ph r = RIdle -> r_left r = S lft -> w_cur w = Some id ->
+  let start := if r_first r then w_now w else N.max (w_now w) (r_last r + r_throttle r) in
+  retry_next (S f) cfg r w = retry_next f cfg (rs_set (rs_set r lft false start RIdle) lft false start (RInner PStart)) (at_time w start).
+Proof. exact reuse_without_connect. Qed.
+Theorem C09_items_keep_connection : forall q id ph d w, w_cur w = Some id ->
+  match seq_next q id ph d w with
+  | NItem _ _ w' | NEnd w' | NTimeout w' => w_cur w' = Some id
+  end.
+Proof. exact ok_item_keeps_connection. Qed.
+
+(* non-vacuity: a log with a write after a drop is rejected by log_safe, one without is accepted *)
+Example C09_ex_log_safe_discriminates :
+  ~ log_safe [EWrite 0 9 [1]; EDrop 0 8; EWrite 0 1 [2]; EOpen 0 0] /\
+  log_safe [EWrite 1 9 [1]; EOpen 1 8; EDrop 0 8; EWrite 0 1 [2]; EOpen 0 0].
+Proof.
+  split.
+  - cbn. intros [H _]. apply H. exists 8. left. reflexivity.
+  - cbn. repeat split.
+    + intros [t [H|[H|[H|[H|[]]]]]]; discriminate.
+    + exists 8. left. reflexivity.
+    + intros e [<-|[<-|[<-|[]]]]; discriminate.
+    + intros [t [H|[]]]; discriminate.
+    + exists 0. left. reflexivity.
+    + intros e [].
+Qed.
+
+Print Assumptions C09_after_err_drops_connection.
 Print Assumptions C09_drop_clears_current.
+Print Assumptions C09_history_never_reuses_a_dropped_connection.
+Print Assumptions C09_history_registration_first.
+Print Assumptions C09_connection_is_vetted.
+Print Assumptions C09_reuse_without_connect.
+Print Assumptions C09_items_keep_connection.
